@@ -23,13 +23,15 @@ ASSUMPTIONS = [
     "the display text (pretty_next_run) is outside this property (C13): used through an opaque contract",
     "a device lists a created record back with the mask / start / end fields it was given (device behaviour, assumed)",
 ]
-ENUMERATED = ["number of records 0..61 (61 = the most a 1024-byte read can hold): every count is a separate, fully symbolic class -- "
-              "complete for replies read by the API; the bare function on longer inputs is not claimed", "empty reply"]
-BOUNDED_PARTS = ["record count is enumerated 0..61 rather than proved by a loop invariant: complete for the API path (read(1024)), "
-                 "a stated bound for get_schedules called directly with longer input"]
+ENUMERATED = ["number of records 0..61 (61 = the most a 1024-byte read can hold): every count is a separate, fully symbolic class (whole-function "
+              "obligations incl. the kept-iff-first clause); any larger count: loop-step lemma any_count_step (one iteration for an arbitrary chunk "
+              "from an arbitrary set) + the meta-argument of DESIGN.md 9.8", "empty reply"]
+BOUNDED_PARTS = ["for more than 61 records the whole-function clause (one schedule per distinct slot id) is the step lemma combined with the set model by "
+                 "a meta-argument that is not machine-checked (DESIGN.md 9.8); the native sweep runs listings of 60..400 records as its stand-in"]
 EXPLANATION = ("get_schedules executed from the AST on a reply of 49 + 16 k bytes, every byte symbolic; ScheduleParser.get_days, the "
                "timestamp decoder and calc_duration through their contracts (re-proved in this run); for each record the parsed "
-               "schedule equals the reference record, and a record is kept iff no earlier record has the same slot id")
+               "schedule equals the reference record, and a record is kept iff no earlier record has the same slot id; for any number of records: "
+               "one loop iteration from an arbitrary set adds exactly one element, the reference record of that chunk, to the carried set")
 
 
 def Days():
@@ -146,6 +148,46 @@ def units(tier):
                 Obligation(f"{PROP}/SwitcherSchedule/hash_consistent_with_eq", ctx,
                            False if hashed_same is False else simp(z3.Implies(zb(e), zb(hashed_same))))]
     u["eq_hash"] = Unit("eq_hash", PROP, eq_hash, functions=[SP + "SwitcherSchedule.__eq__", SP + "SwitcherSchedule.__hash__"])
+
+    # ---- any number of records: get_schedules is a fold of set.add over the 32-character chunks; step lemma for an ARBITRARY chunk
+    #      from an ARBITRARY set (DESIGN.md 9.8); base and the code around the loop: records_0 / empty_reply / records_k above
+    def any_count_step(ip, ctx):
+        from pyvc import capmodel
+        from pyvc.interp import Builtin
+        ip.loop_hook = capmodel.loop_hook
+        q = sym_bytes(ctx, "q", 16)
+        m = ip.getitem(q, 2, ctx)
+        ctx.assume(z3.And(z3.Implies(zi(m) != 0, zi(m) >= 2), zi(m) <= 254))
+        chunk = hex_of_bytes(q)
+        log = schedmodel.AddLog()
+        seen = []
+
+        def wrap_any(ip_, a, k, c):
+            seen.append((a, k))
+            c.used_models.add("textwrap.wrap(hex text, 32): the loop runs once per 32-character chunk (any number of them)")
+            return capmodel.OneStep(chunk, {"ret_set": log})
+        ip.ext_models["textwrap.wrap"] = Builtin("wrap", wrap_any)
+        r = sym_bytes(ctx, "r", 49 + 16)
+        base = f"{PROP}/get_schedules/any_count/step"
+        try:
+            ip.call_function(func(SP + "get_schedules"), [r], {}, ctx)
+            return [Obligation(base + "/loop_reached", ctx, False)]
+        except capmodel.LoopStepDone as e:
+            env = e.env
+        obs = [Obligation(base + "/chunks_are_32_characters_of_the_reply_text", ctx,
+                          len(seen) == 1 and len(seen[0][0]) >= 2 and seen[0][0][1] == 32 and not seen[0][1]
+                          and ip.equals(seen[0][0][0], hex_of_bytes(ip.getslice(r, 45, 61, ctx)), ctx)),
+               Obligation(base + "/the_set_is_the_one_carried_through_the_loop", ctx, env.get("ret_set") is log),
+               Obligation(base + "/exactly_one_element_added_per_chunk", ctx, len(log.adds) == 1 and isinstance(log.adds[0], Obj))]
+        if len(log.adds) == 1 and isinstance(log.adds[0], Obj):
+            want = sp(ip, "record_spec", [q, Days()], ctx).d
+            for field, v in want.items():
+                obs.append(Obligation(base + f"/element/{field}", ctx, deep_equals(ip, log.adds[0].attrs.get(field), v, ctx)))
+        return obs
+    u["any_count_step"] = Unit("any_count_step", PROP, any_count_step,
+                               functions=[SP + "get_schedules", SP + "SwitcherSchedule.__post_init__", SP + "ScheduleParser.get_id",
+                                          SP + "ScheduleParser.is_recurring", SP + "ScheduleParser.get_start_time",
+                                          SP + "ScheduleParser.get_end_time"])
 
     # ---- contracts proved from the callees' bodies
     def dep_days(ip, ctx):
